@@ -112,7 +112,8 @@ def data(kind, which=0):
             y = 1.0 + 0.5 * s + ((numpy.arange(n) * 5 + which) % 7) * 0.3
             return {"X": X, "y": y}
         if kind == "recip":
-            y = 1.0 + ((numpy.arange(n) * 5 + which) % 4) * 0.5
+            nlab = [4, 3, 4, 2, 5][which % 5]
+            y = [1.0, 10.0, 1.0, 0.5, 3.0][which % 5] + ((numpy.arange(n) * 5 + which) % nlab) * [0.5, 10.0, 1.5, 1.0, 0.25][which % 5]
             return {"X": X, "y": y}
         labs = [(0, 1), (0, 1), (3, 7), (0, 1, 2), (0, 1)][which % 5]
         order = numpy.argsort(numpy.argsort(s + 0.01 * numpy.arange(n)))
@@ -198,7 +199,8 @@ def catalogue():
     add("ConstraintKMeans", "cluster", {
         "A": lambda: M.ConstraintKMeans(n_clusters=2, strategy="distance", random_state=0, n_init=2, max_iter=20),
         "B": lambda: M.ConstraintKMeans(n_clusters=3, strategy="gain", kmeans0=False, random_state=1,
-                                        max_iter=10, n_init=2)},
+                                        max_iter=10, n_init=2),
+        "C": lambda: M.ConstraintKMeans(n_clusters=3, strategy="gain", random_state=2, max_iter=10, n_init=1)},
         strs={"strategy": ["distance", "gain"], "init": ["k-means++", "random"]})
     add("PiecewiseRegressor", "reg", {
         "A": lambda: M.PiecewiseRegressor("tree"),
@@ -206,10 +208,13 @@ def catalogue():
         "C": lambda: M.PiecewiseRegressor(binner=DTR(max_depth=2), estimator=LinR(fit_intercept=False), n_jobs=2)})
     add("PiecewiseClassifier", "clf", {
         "A": lambda: M.PiecewiseClassifier(binner=DTC(min_samples_leaf=3), random_state=0),
-        "B": lambda: M.PiecewiseClassifier(binner=DTC(max_depth=1), estimator=DTC(max_depth=2), random_state=1)})
+        "B": lambda: M.PiecewiseClassifier(binner=DTC(max_depth=1), estimator=DTC(max_depth=2), random_state=1),
+        "C": lambda: M.PiecewiseClassifier(binner=DTC(max_depth=2, random_state=0), estimator=DTC(max_depth=2, random_state=0),
+                                           random_state=0)})
     add("PiecewiseTreeRegressor", "reg", {
         "A": lambda: M.PiecewiseTreeRegressor(criterion="mselin", max_depth=2),
-        "B": lambda: M.PiecewiseTreeRegressor(criterion="simple", min_samples_leaf=2)},
+        "B": lambda: M.PiecewiseTreeRegressor(criterion="simple", min_samples_leaf=2),
+        "C": lambda: M.PiecewiseTreeRegressor(criterion="mselin", max_depth=3, random_state=0)},
         strs={"criterion": ["mselin", "simple"]})
     add("DecisionTreeLogisticRegression", "clf", {
         "A": lambda: M.DecisionTreeLogisticRegression(max_depth=3),
@@ -317,8 +322,13 @@ def observe(est, kind, dat, P=None):
         out["predict"] = numpy.asarray(est.predict(dat["X"], dat["y"]), dtype=float)
         return out
     if kind == "recip":
-        _, yt = est.transform(P, dat["y"][:len(P)] if len(dat["y"]) >= len(P) else numpy.resize(dat["y"], len(P)))
+        yy = dat["y"][:len(P)] if len(dat["y"]) >= len(P) else numpy.resize(dat["y"], len(P))
+        _, yt = est.transform(P, yy)
         out["transform_y"] = numpy.asarray(yt, dtype=float)
+        if getattr(est, "closest", False):
+            # values that are not training targets: resolved through the nearest known target
+            _, yt2 = est.transform(P, yy + 0.2)
+            out["transform_y_closest"] = numpy.asarray(yt2, dtype=float)
         return out
     for meth in ("predict", "predict_proba", "transform"):
         if hasattr(est, meth):
